@@ -23,6 +23,7 @@ type SolverStats struct {
 	WallNs   int64
 	MaxNs    int64
 	Restarts int
+	Killed   int
 }
 
 type Solver struct {
@@ -77,6 +78,20 @@ func (s *Solver) Close() {
 		s.cmd.Process.Kill()
 		s.cmd.Wait()
 	}
+}
+
+// watchdog kills the solver process when it does not answer within three times its soft timeout plus ten seconds
+// (z3's :timeout is not honoured inside some preprocessing steps); the caller then sees a dead solver = unknown.
+func (s *Solver) watchdog() func() {
+	if s.TimeoutMs <= 0 || s.cmd == nil || s.cmd.Process == nil {
+		return func() {}
+	}
+	proc := s.cmd.Process
+	t := time.AfterFunc(time.Duration(3*s.TimeoutMs)*time.Millisecond+10*time.Second, func() {
+		s.Stats.Killed++
+		proc.Kill()
+	})
+	return func() { t.Stop() }
 }
 
 func (s *Solver) restart() {
@@ -197,6 +212,8 @@ func (s *Solver) Check(conds []*Term, wantModel bool) (Result, map[string]*big.I
 		s.send("(assert " + s.ref(c) + ")")
 	}
 	s.send("(check-sat)")
+	stopWatchdog := s.watchdog()
+	defer stopWatchdog()
 	ans := s.readLine()
 	for ans == "" || strings.HasPrefix(ans, ";") {
 		ans = s.readLine()
@@ -261,6 +278,8 @@ func (s *Solver) CheckValue(conds []*Term, t *Term) (Result, *big.Int) {
 		}
 	}
 	s.send("(check-sat)")
+	stopWatchdog := s.watchdog()
+	defer stopWatchdog()
 	ans := s.readLine()
 	for ans == "" || strings.HasPrefix(ans, ";") {
 		ans = s.readLine()
